@@ -658,6 +658,9 @@ func (ab *dsAddrBook) setAddrs(p peer.ID, addrs []ma.Multiaddr, ttl time.Duratio
 				Expiry: newExp,
 			}
 			entries = append(entries, entry)
+			// a batch may name the same addr twice; the second occurrence must
+			// update this entry instead of storing a duplicate.
+			addrsMap[string(entry.Addr)] = entry
 			if incomingIsUnconnected {
 				unconnectedCount++
 			}
